@@ -220,3 +220,18 @@ def closure_messages(files, recursive, prefix, sep="."):
         if k.endswith(".rst"):
             msgs.append(f"unreachable: {k} is not reachable from the top index.rst")
     return msgs
+
+
+def k4_known_shape(tree, files):
+    """K4 as recorded: in every output directory that mirrors a directory holding index.cmake, index.rst *is* that
+    module's page (the page overwrote the directory index).  Any other outcome on such a tree - the index winning, the
+    page missing - is not the recorded finding."""
+    for i in range(len(tree.parents)):
+        if "index.cmake" not in tree.files(i):
+            continue
+        f = files.get(_join(tree.rel(i), "index.rst"))
+        if f is None:
+            continue
+        if ".. module::" not in f or "toctree::" in f:
+            return False
+    return True
